@@ -521,3 +521,30 @@ V("quadratic branch: denominator without the factor 2", "C20", MATH, "        x1
 V("linear branch: sign of the root", "C20", MATH, "        return np.array([-d / c])", "        return np.array([d / c])", "E12.roots", "roots")
 V("twin: quadratic roots written with the quotient distributed", "C20", MATH, "        x1 = (-c + D) / (2 * b)", "        x1 = -c / (2 * b) + D / (2 * b)", "silent")
 V("twin: triple root from the sum of the roots", "C20", MATH, "        x = -np.cbrt(d / a)", "        x = -b / (3 * a)", "silent")
+
+
+# ------------------------------------------------------------------------------------------------ flattening numpy calls (K9; found by seeding, R8_C16)
+for _p in ("C16", "C04"):
+    V(f"ray casting: start-vertex mask as a roll of the end-vertex mask without axis ({_p})", _p, SHAPES,
+      "        v1_intersections = (v1[..., 1] <= v2[..., 1]) & is_multiple(\n            intersections.array, v1, atol=EQ_TOL_ABS, rtol=EQ_TOL_REL, axis=-1\n        )",
+      "        v2_on_ray = is_multiple(intersections.array, v2, atol=EQ_TOL_ABS, rtol=EQ_TOL_REL, axis=-1)\n        v1_intersections = (v1[..., 1] <= v2[..., 1]) & np.roll(v2_on_ray, 1)", "E6.K9", "PolygonTensor.contains")
+    V(f"twin: the same roll along the edge axis ({_p})", _p, SHAPES,
+      "        v1_intersections = (v1[..., 1] <= v2[..., 1]) & is_multiple(\n            intersections.array, v1, atol=EQ_TOL_ABS, rtol=EQ_TOL_REL, axis=-1\n        )",
+      "        v2_on_ray = is_multiple(intersections.array, v2, atol=EQ_TOL_ABS, rtol=EQ_TOL_REL, axis=-1)\n        v1_intersections = (v1[..., 1] <= v2[..., 1]) & np.roll(v2_on_ray, 1, axis=-1)", "silent")
+V("vertex cycle rolled without axis when the edges are built", "C04", SHAPES, "        v2 = np.roll(v1, -1, axis=-2)", "        v2 = np.roll(v1, -1)", "E6.K9", "edges")
+
+
+# ------------------------------------------------------------------------------------------------ vectorised closed forms (E12.det; found by seeding, R8_C20)
+DET4_ANCHOR = "    return np.linalg.det(A)\n\n\ndef inv("
+def _det4(sign: str) -> str:
+    return ("    if n == 4 and A.size >= 16 * 128:\n        p, q = np.triu_indices(4, 1)\n        r, s = p[::-1], q[::-1]\n"
+            "        upper = A[..., 0, p] * A[..., 1, q] - A[..., 0, q] * A[..., 1, p]\n        lower = A[..., 2, r] * A[..., 3, s] - A[..., 2, s] * A[..., 3, r]\n"
+            f"        return np.sum((-1) ** ({sign}) * upper * lower, axis=-1)\n\n") + DET4_ANCHOR
+V("new 4x4 branch of det by Laplace expansion along two rows, sign without the row indices", "C20", MATH, DET4_ANCHOR, _det4("p + q"), "E12.det", "det")
+V("twin: new 4x4 branch of det by Laplace expansion along two rows", "C20", MATH, DET4_ANCHOR, _det4("p + q + 1"), "silent")
+
+
+# ------------------------------------------------------------------------------------------------ int8 accumulation (K10; found by seeding, R5_C05 / R8_C05)
+V("Kronecker delta for p == n as a contraction of the int8 epsilon arrays", "C05", BASE, "np.tensordot(e.array, e.array, 0)", "np.tensordot(e.array, e.array, ([], []))", "silent")
+V("general Kronecker delta by contracting two int8 epsilon arrays", "C05", BASE, "            array = np.tensordot(e.array, e.array, 0)", "            array = np.tensordot(e.array, e.array, (list(range(p, n)), list(range(p, n))))", "E6.K10", "KroneckerDelta", quick=True)
+V("twin: the same contraction with a widened operand", "C05", BASE, "            array = np.tensordot(e.array, e.array, 0)", "            array = np.tensordot(e.array.astype(int), e.array, (list(range(p, n)), list(range(p, n))))", "silent")
